@@ -53,6 +53,50 @@ Section GridFun.
       rewrite (Hf e q d Hin Hq) by lia. rewrite Hsr; simpl. ring.
   Qed.
 
+  (* ---- the vectorised projection path equals the scalar one --------------------------------------------------- *)
+  Lemma sumf_combine_snd {B} (H : B -> A) (l : list B) n :
+    sumf (fun pe : nat * B => H (snd pe)) (combine (seq n (length l)) l) == sumf H l.
+  Proof. revert n; induction l as [|a l IH]; intros n; simpl; [reflexivity|]. rewrite IH. reflexivity. Qed.
+
+  Lemma sumf_enumerate {B} (G : nat * B -> A) (H : B -> A) (l : list B) :
+    (forall pe, In pe (enumerate l) -> G pe == H (snd pe)) -> sumf G (enumerate l) == sumf H l.
+  Proof.
+    intros E. rewrite (sumf_ext G (fun pe => H (snd pe)) _ E). apply sumf_combine_snd.
+  Qed.
+
+  (* if the table handed to _project_function_vectorized holds, at (position of e, number of q), the value of the
+     callable at quadrature point q of element e (what get_function_quadrature_information + the callable produce), the
+     vectorised projection equals the scalar projection -- for every support, prefix or not *)
+  Theorem project_vectorized_is_project nel dim rule intel (S : space A) (ev : basisfn)
+          (fdata : nat -> nat -> nat -> A) (f : nat -> pt2 A -> nat -> A) r :
+    (forall pos e k q d, In (pos, e) (enumerate (support_elements nel S)) -> In (k, q) (enumerate rule) ->
+                         fdata pos k d == f e (fst q) d) ->
+    project_vectorized nel dim rule intel S ev fdata r == project nel dim rule intel S ev f r.
+  Proof.
+    intros Hf. unfold project_vectorized, project.
+    apply sumf_enumerate. intros [pos e] Hpe. simpl snd.
+    apply sumf_ext_all; intros i. destruct (Nat.eqb r (sp_l2g S e i)); [|reflexivity].
+    apply rmul_proper; [|reflexivity]. apply sumf_ext_all; intros d.
+    apply (sumf_enumerate (fun kq => let '(k, q) := kq in ev e i (fst q) d * fdata pos k d * snd q)
+                          (fun q => ev e i (fst q) d * f e (fst q) d * snd q)).
+    intros [k q] Hkq. simpl snd. rewrite (Hf pos e k q d Hpe Hkq). reflexivity.
+  Qed.
+
+  Corollary projection_vectorized_is_mass_times_coefficients dim rule intel (bt br evt : basisfn) nel (St Sr : space A)
+          (J : list nat) (coef : nat -> A) (fdata : nat -> nat -> nat -> A) (f : nat -> pt2 A -> nat -> A) r :
+    NoDup J -> dofs_in J Sr (sparse_elements nel St Sr) ->
+    (forall e i p d, evt e i p d == sp_mult St e i * bt e i p d) ->
+    (forall e q d, In e (support_elements nel St) -> In q rule -> (d < dim)%nat ->
+                   f e (fst q) d == indic (sp_support Sr e) (uval coef Sr br e (fst q) d)) ->
+    (forall pos e k q d, In (pos, e) (enumerate (support_elements nel St)) -> In (k, q) (enumerate rule) ->
+                         fdata pos k d == f e (fst q) d) ->
+    project_vectorized nel dim rule intel St evt fdata r ==
+    mvec J (sparse_core nel (Lsp_identity dim rule intel bt br) St Sr) coef r.
+  Proof.
+    intros NJ HJ Hev Hf Hd. rewrite (project_vectorized_is_project nel dim rule intel St evt fdata f r Hd).
+    apply projection_is_mass_times_coefficients; assumption.
+  Qed.
+
   (* ---- _integrate ---------------------------------------------------------------------------------------------- *)
   (* integrate() is the quadrature of the represented function, for every space (signed multipliers included) *)
   Theorem integrate_is_direct_quadrature nel rule intel (S : space A) (ev : basisfn) coef d :
